@@ -497,7 +497,7 @@ fn complete_op(fd: i32, idx: usize) {
         let (outcome, digest) = if op.opcode == ops::OP_ASYNC_CANCEL {
             (Outcome::Done(-(op.off as i32), 0), 0)
         } else {
-            let mut cx = ops::Ctx { pbufs: &mut r.pbufs, short, multishot_end: mend, digest: 0, held: &k.user_held };
+            let mut cx = ops::Ctx { pbufs: &mut r.pbufs, short, multishot_end: mend, digest: 0, held: &k.user_held, udp_loss: k.cfg.udp_loss, udp_dup: k.cfg.udp_dup };
             let o = op.complete(&mut cx);
             (o, cx.digest)
         };
